@@ -6,7 +6,7 @@ ID = "C01"
 LEAN_MODULES = ["LhasaV.Props.C01"]
 VH_FEATURES = ["decoder"]
 PER_OP_SECONDS = 60
-THEOREMS = {
+THEOREMS = {"lhnew_init_matches_source": "full (translator tie): lha_lh_new_init of the working tree run for the five parameter sets, its state dumped on every run = the model's init", 
     "lhnew_decode_serialise": "FULL STATEMENT: every well-formed description, every parameter set with RTParams, any chunking, declared length, schedule",
     "lh5_decode_serialise": "full (-lh4-/-lh5-)", "lh6_decode_serialise": "full", "lh7_decode_serialise": "full",
     "lhx_decode_serialise": "full", "lk7_decode_serialise": "full (LHark)",
